@@ -176,7 +176,8 @@ fn file_case(kind: &str, dir: &std::path::Path) -> Result<String, String> {
         k if k.starts_with("proc:") => {
             // metadata size 0, content non-empty: must be an error, never a hash
             let p = std::path::Path::new(&k[5..]);
-            let content = std::fs::read(p).map_err(|e| format!("cannot read {}: {} (environment)", p.display(), e));
+            // an entry that does not exist / cannot be read in this environment is simply not applicable
+            let content = std::fs::read(p);
             let meta = std::fs::metadata(p).map(|m| m.len());
             match (content, meta) {
                 (Ok(c), Ok(m)) if c.len() as u64 != m => {
